@@ -16,7 +16,10 @@ EXTENDS Integers, Sequences, FiniteSets, TLC, Json
 CONSTANTS TraceFile
 
 \* entry point -> session states it can be in
-States == [dispatcher |-> {"idle", "keygen-sync", "keygen-protocol", "sign-protocol", "finished"},
+\* (keygen-init: the first synchronisation is over, the back end's Init is in progress; keygen-sync2: Init is done, the second
+\*  synchronisation runs, KeyGen has not started -- the stages reg / init / s2 of spec/Barrier.tla; the back end is STRICT there:
+\*  like the real BLS / PS back ends it does not survive a message before its Init has completed)
+States == [dispatcher |-> {"idle", "keygen-sync", "keygen-init", "keygen-sync2", "keygen-protocol", "sign-protocol", "finished"},
            buffer     |-> {"not-started", "started", "over-limit"},
            sync       |-> {"unregistered", "probing", "done"},
            blsdkg     |-> {"initialised", "after-shares", "after-commits", "finished"},
